@@ -51,6 +51,10 @@ def validate(n, r, p):
     if n < 2 or n & (n - 1):
         raise ValueError(f"n must be > 1, and a power of 2: n={n!r}")
 
+    if n >= 1 << (16 * r):
+        # rfc7914 sec. 2: N must be less than 2^(128 * r / 8)
+        raise ValueError(f"n must be < 2**(16*r): n={n!r}, r={r!r}")
+
     return True
 
 
